@@ -99,6 +99,10 @@ def judge(cfg, obs):
             elif r["exc"][0] != "StopIteration" or r["kind"] != "next":
                 bad.append(("exception-in-%s:%s|%s" % (r["kind"], r["exc"][0], tag), "step %s (call %s) raised %s%r" % (r["kind"], c, r["exc"][0], r["exc"][1])))
     expect_runtime = {2} if s in ("overlap", "with-exit-overlap") else set()
+    if s in ("overlap", "with-exit-overlap") and 2 not in call_exc:
+        # every task of run 1 had completed, so the second call was accepted (judged below): run 2 is never consumed by
+        # these programs and is still unfinished when the third call is made - which is then rightly rejected
+        expect_runtime = {3}
     if s == "overlap-finished" and 2 in call_exc and call_exc[2][0] == "RuntimeError":
         expect_runtime = {2}     # the generator of run 1 is not exhausted: rejecting the call is always acceptable
     for c in sorted(set(list(received) + list(call_exc))):
